@@ -156,9 +156,19 @@ func genView(r *rng, w, h int, prev []string) []string {
 	return v
 }
 
+// genBigHistory: the same shapes on terminals and views of a realistic size - 40 to 200 columns,
+// 40 to 100 rows, views of dozens of lines (many unchanged lines between two changed ones, views
+// taller than the window, frames of tens of kilobytes): whatever the renderer does differently for
+// "large" has to show here.
+func genBigHistory(r *rng, maxOps int) rhistory {
+	return genHistorySized(r, maxOps, []int{40, 120, 200}, []int{40, 50, 64, 100})
+}
+
 func genHistory(r *rng, maxOps int) rhistory {
-	ws := []int{1, 2, 3, 4, 5, 6, 7, 8, 10, 12, 80}
-	hs := []int{1, 2, 3, 4, 5, 6, 8, 24}
+	return genHistorySized(r, maxOps, []int{1, 2, 3, 4, 5, 6, 7, 8, 10, 12, 80}, []int{1, 2, 3, 4, 5, 6, 8, 24})
+}
+
+func genHistorySized(r *rng, maxOps int, ws, hs []int) rhistory {
 	h := rhistory{w: ws[r.intn(len(ws))], h: hs[r.intn(len(hs))]}
 	h.r0 = r.intn(h.h)
 	h.ops = append(h.ops, rop{op: "size", w: h.w, h: h.h})
@@ -654,6 +664,18 @@ func streamRender(c *corrOut, r *rng, n int, thorough bool) map[string]interface
 		{w: 10, h: 6, r0: 1, ops: []rop{{op: "size", w: 10, h: 6}, {op: "w", arg: "one\ntwo\nthree"}, {op: "f"}, {op: "ea"}, {op: "cs"}, {op: "xa"}, {op: "w", arg: "uno\ndos\ntres"}, {op: "f"}}},
 		{w: 4, h: 4, r0: 1, ops: []rop{{op: "size", w: 4, h: 4}, {op: "ea"}, {op: "w", arg: "abcdef\nxy"}, {op: "f"}, {op: "size", w: 3, h: 2}, {op: "w", arg: "abcdef\nxy\nz"}, {op: "f"}, {op: "xa"}, {op: "w", arg: "q"}, {op: "st"}}},
 	}
+	{
+		// a frame of 40 KB (400 lines of 100 columns) painted, changed and painted again at once, then
+		// a different big view as the final one: size must not matter to what is painted when
+		var big1, big2 []string
+		for i := 0; i < 400; i++ {
+			big1 = append(big1, fmt.Sprintf("%03d ", i)+strings.Repeat(string(rune('a'+i%26)), 96))
+			big2 = append(big2, fmt.Sprintf("%03d ", i)+strings.Repeat(string(rune('A'+i%26)), 96))
+		}
+		corpus = append(corpus,
+			rhistory{w: 120, h: 500, r0: 0, ops: []rop{{op: "size", w: 120, h: 500}, {op: "w", arg: "small"}, {op: "f"}, {op: "w", arg: strings.Join(big1, "\n")}, {op: "f"}, {op: "w", arg: strings.Join(big2, "\n") + "\n"}, {op: "st"}}},
+			rhistory{w: 120, h: 50, r0: 3, ops: []rop{{op: "size", w: 120, h: 50}, {op: "ea"}, {op: "w", arg: strings.Join(big1, "\n")}, {op: "f"}, {op: "w", arg: strings.Join(big2, "\n")}, {op: "f"}, {op: "w", arg: strings.Join(big1[:45], "\n") + "\n"}, {op: "st"}}})
+	}
 	run := func(h rhistory, bucket string) {
 		res := runHistory(h)
 		c.emit(h.line(), strings.Join(res.perOp, " | ")+" # "+res.state, bucket)
@@ -666,6 +688,10 @@ func streamRender(c *corrOut, r *rng, n int, thorough bool) map[string]interface
 	}
 	maxOps := 40
 	for c.count < n {
+		if c.count%12 == 5 {
+			run(genBigHistory(r, 14), "big")
+			continue
+		}
 		h := genHistory(r, maxOps)
 		bucket := fmt.Sprintf("w%d", h.w)
 		if h.w > 12 {
@@ -681,8 +707,14 @@ func streamRender(c *corrOut, r *rng, n int, thorough bool) map[string]interface
 func streamVT(c *corrOut, r *rng, n int, thorough bool) map[string]interface{} {
 	for c.count < n {
 		h := genHistory(r, 30)
+		bucket := fmt.Sprintf("w%d", h.w)
+		if c.count%300 == 5 {
+			// (few: the Lean terminal semantics keeps its cells as a function and is slow on screens
+			// of this size; the byte-level `render` stream carries the bulk of the big histories)
+			h, bucket = genBigHistory(r, 10), "big"
+		}
 		res := runHistory(h)
-		c.emit(h.line(), strings.Join(res.vtHashes, ",")+" # "+res.vtDump, fmt.Sprintf("w%d", h.w))
+		c.emit(h.line(), strings.Join(res.vtHashes, ",")+" # "+res.vtDump, bucket)
 	}
 	return nil
 }
